@@ -6,14 +6,15 @@
 //	lz4  withLength  DecompressWithLength(CompressWithLength(x)) == x (frame body format)
 //	snappy withLength same
 //
-// each through a *bytes.Buffer source and through a plain io.Reader (and a 3-bytes-at-a-time reader
-// for small inputs). The compressed form is also judged by segref's independent decoders (LZ4 block
+// each through a *bytes.Buffer source, a plain io.Reader, readers delivering 1/3/4096 bytes per Read, the same
+// wrapped in io.LimitReader (what frame.DecodeBody hands over), a 16-byte bufio.Reader and a half-reader. The compressed form is also judged by segref's independent decoders (LZ4 block
 // decoder, Snappy block decoder, 4-byte big-endian length prefix of the LZ4 body format).
 // Differential part: library frames / segments encoded with a compressor must decode to the same
 // content as the same frames / segments encoded without.
 package main
 
 import (
+	"bufio"
 	"bytes"
 	"encoding/binary"
 	"encoding/hex"
@@ -44,15 +45,20 @@ type plainReader struct{ r io.Reader } // hides every method but Read
 
 func (p plainReader) Read(b []byte) (int, error) { return p.r.Read(b) }
 
-type chunkReader struct { // at most 3 bytes per Read
+// chunkReader delivers at most k bytes per Read (k = 1, 3, 4096): what a socket does.
+type chunkReader struct {
 	b []byte
+	k int
 }
 
 func (c *chunkReader) Read(p []byte) (int, error) {
+	if len(p) == 0 {
+		return 0, nil
+	}
 	if len(c.b) == 0 {
 		return 0, io.EOF
 	}
-	n := 3
+	n := c.k
 	if n > len(p) {
 		n = len(p)
 	}
@@ -64,22 +70,68 @@ func (c *chunkReader) Read(p []byte) (int, error) {
 	return n, nil
 }
 
+// halfReader delivers half of what is asked for (at least one byte), like iotest.HalfReader.
+type halfReader struct{ r io.Reader }
+
+func (h halfReader) Read(p []byte) (int, error) { return h.r.Read(p[:(len(p)+1)/2]) }
+
 type srcKind struct {
-	name string
+	name string // no spaces: it becomes part of violation keys
 	mk   func(b []byte) io.Reader
 }
 
+func chunks(k int) func(b []byte) io.Reader {
+	return func(b []byte) io.Reader { return &chunkReader{b: b, k: k} }
+}
+
+func limited(inner func(b []byte) io.Reader, extra int64) func(b []byte) io.Reader {
+	return func(b []byte) io.Reader { return io.LimitReader(inner(b), int64(len(b))+extra) }
+}
+
+func plainSrc(b []byte) io.Reader { return plainReader{bytes.NewReader(b)} }
+
 var (
 	viaBuffer = srcKind{"bytes.Buffer", func(b []byte) io.Reader { return bytes.NewBuffer(append(make([]byte, 0, len(b)), b...)) }}
-	viaReader = srcKind{"io.Reader", func(b []byte) io.Reader { return plainReader{bytes.NewReader(b)} }}
-	viaChunks = srcKind{"io.Reader(3-byte reads)", func(b []byte) io.Reader { return &chunkReader{b: b} }}
+	viaReader = srcKind{"io.Reader", plainSrc}
+	// every other way a caller (frame.DecodeBody hands over io.LimitReader(source, BodyLength)) or a
+	// transport may present the same bytes
+	viaOthers = []srcKind{
+		{"io.Reader[1-byte-reads]", chunks(1)},
+		{"io.Reader[3-byte-reads]", chunks(3)},
+		{"io.Reader[4096-byte-reads]", chunks(4096)},
+		{"io.LimitReader[io.Reader,n=len]", limited(plainSrc, 0)},
+		{"io.LimitReader[io.Reader,n=len+7]", limited(plainSrc, 7)},
+		{"io.LimitReader[1-byte-reads,n=len]", limited(chunks(1), 0)},
+		{"io.LimitReader[3-byte-reads,n=len]", limited(chunks(3), 0)},
+		{"io.LimitReader[4096-byte-reads,n=len]", limited(chunks(4096), 0)},
+		{"io.LimitReader[4096-byte-reads,n=len+7]", limited(chunks(4096), 7)},
+		{"bufio.Reader[16]", func(b []byte) io.Reader { return bufio.NewReaderSize(plainSrc(b), 16) }},
+		{"half-reads", func(b []byte) io.Reader { return halfReader{plainSrc(b)} }},
+		{"io.LimitReader[half-reads,n=len]", limited(func(b []byte) io.Reader { return halfReader{plainSrc(b)} }, 0)},
+	}
+	// beyond 1 MiB only the kinds that cost one pass
+	viaBig = []srcKind{
+		{"io.LimitReader[io.Reader,n=len]", limited(plainSrc, 0)},
+		{"io.LimitReader[4096-byte-reads,n=len]", limited(chunks(4096), 0)},
+		{"half-reads", func(b []byte) io.Reader { return halfReader{plainSrc(b)} }},
+	}
 )
 
-func kindsFor(n int) []srcKind {
-	if n <= 4096 {
-		return []srcKind{viaBuffer, viaReader, viaChunks}
+// kindsForCompress: compressing is the expensive direction (the >64 KiB compressor runs at ~10 MB/s), so
+// above 128 KiB only the kinds that differ in how the source is drained are kept.
+func kindsForCompress(n int) []srcKind {
+	if n <= 1<<17 || n > 1<<20 {
+		return kindsFor(n)
 	}
-	return []srcKind{viaBuffer, viaReader}
+	return append([]srcKind{viaBuffer, viaReader, {"io.LimitReader[3-byte-reads,n=len]", limited(chunks(3), 0)}}, viaBig...)
+}
+
+func kindsFor(n int) []srcKind {
+	ks := []srcKind{viaBuffer, viaReader}
+	if n <= 1<<20 {
+		return append(ks, viaOthers...)
+	}
+	return append(ks, viaBig...)
 }
 
 // ------------------------------------------------------------------------------------------------
@@ -228,7 +280,7 @@ func (ck checker) roundTrip(a algo, bc bcase, x []byte) {
 		c.Count("cases_run_unjudged_"+a.ratioName, 1)
 	}
 	var forms [][]byte // distinct compressed forms, each judged once
-	for _, sk := range kindsFor(len(x)) {
+	for _, sk := range kindsForCompress(len(x)) {
 		var out bytes.Buffer
 		var err error
 		pan, pv := mon.Guard(func() { err = a.compress(sk.mk(x), &out) })
@@ -354,12 +406,14 @@ func (ck checker) judgeForm(a algo, judged bool, base detail, x, comp []byte) {
 			key += "/" + kind
 		}
 		if len(os) != len(kinds) {
-			var vs []string
+			// only some ways of presenting the same bytes fail: one key per failing source kind
 			for _, o := range os {
-				vs = append(vs, strings.NewReplacer(" ", "", "(", "[", ")", "]").Replace(o.via))
+				d := base
+				d.Via, d.Err = o.via, o.err
+				d.What = "decompress(compress(x)) != x only through this kind of source: " + kind + " (the compressed form is valid and other source kinds return x)"
+				ck.report(judged, key+"/only-via="+o.via, d)
 			}
-			sort.Strings(vs)
-			key += "/only-via=" + strings.Join(vs, "+")
+			continue
 		}
 		d := base
 		d.Via, d.Err = os[0].via, os[0].err
@@ -561,6 +615,21 @@ func (ck checker) runFrame(nf namedFrame) {
 		case !sameContent(want, got):
 			own = "different content"
 		}
+		if own == "ok" {
+			// the same frame bytes arriving the way a transport delivers them
+			for _, sk := range []srcKind{{"io.Reader[3-byte-reads]", chunks(3)}, {"io.Reader[4096-byte-reads]", chunks(4096)}, {"half-reads", func(b []byte) io.Reader { return halfReader{plainSrc(b)} }}, {"bufio.Reader[16]", func(b []byte) io.Reader { return bufio.NewReaderSize(plainSrc(b), 16) }}} {
+				var g2 *frame.Frame
+				var e2 error
+				p2, pv2 := mon.Guard(func() { g2, e2 = cd.DecodeFrame(sk.mk(enc.Bytes())) })
+				c.Eval(1)
+				if p2 || e2 != nil || !sameContent(want, g2) {
+					d2 := d
+					d2.Via = sk.name
+					d2.What, d2.Err = "a compressed frame that decodes from a bytes.Reader does not decode (to the same content) from this kind of source", fmt.Sprint(pv2, e2)
+					c.Violation("frame/"+ba.name+"/decode/"+cls+"/only-via="+sk.name, d2)
+				}
+			}
+		}
 		if rerr != nil {
 			// compressed body is not a valid encoding at all: one cause, one key
 			d.What, d.Err = "compressed body does not expand under the independent decoder", rerr.Error()
@@ -676,6 +745,20 @@ func (ck checker) runSegment(name string, payload []byte, selfContained bool) {
 	case got == nil || got.Payload == nil || got.Header == nil || !bytes.Equal(got.Payload.UncompressedData, want.Payload.UncompressedData) || got.Header.IsSelfContained != want.Header.IsSelfContained:
 		own = "different content"
 	}
+	if own == "ok" {
+		for _, sk := range []srcKind{{"io.Reader[3-byte-reads]", chunks(3)}, {"half-reads", func(b []byte) io.Reader { return halfReader{plainSrc(b)} }}} {
+			var g2 *segment.Segment
+			var e2 error
+			p2, pv2 := mon.Guard(func() { g2, e2 = cd.DecodeSegment(sk.mk(enc.Bytes())) })
+			c.Eval(1)
+			if p2 || e2 != nil || g2 == nil || g2.Payload == nil || !bytes.Equal(g2.Payload.UncompressedData, payload) {
+				d2 := d
+				d2.Via = sk.name
+				d2.What, d2.Err = "an LZ4 segment that decodes from a bytes.Reader does not decode from this kind of source", fmt.Sprint(pv2, e2)
+				c.Violation("segment/lz4/decode/"+cls+"/only-via="+sk.name, d2)
+			}
+		}
+	}
 	if compressed {
 		if exp, _, rerr := segref.LZ4DecodeBlock(parsed.Transmitted, len(payload)); rerr != nil || !bytes.Equal(exp, payload) {
 			kind := segref.LZ4Diagnose(parsed.Transmitted, payload)
@@ -698,6 +781,39 @@ func (ck checker) runSegment(name string, payload []byte, selfContained bool) {
 	}
 }
 
+func (ck checker) runSegmentSequence(order string, names []string, ps [][]byte, flags []bool) {
+	c := ck.c
+	enc := segment.NewCodecWithCompression(lz4.Compressor{})
+	dec := segment.NewCodecWithCompression(lz4.Compressor{})
+	var stream bytes.Buffer
+	for i := range ps {
+		s := &segment.Segment{Header: &segment.Header{IsSelfContained: flags[i]}, Payload: &segment.Payload{UncompressedData: ps[i]}}
+		if err := enc.EncodeSegment(s, &stream); err != nil {
+			return // reported by runSegment
+		}
+	}
+	rd := bytes.NewReader(stream.Bytes())
+	got := make([]*segment.Segment, len(ps))
+	for i := range ps {
+		var err error
+		pan, _ := mon.Guard(func() { got[i], err = dec.DecodeSegment(rd) })
+		c.Eval(1)
+		if pan || err != nil || got[i] == nil || got[i].Payload == nil || !bytes.Equal(got[i].Payload.UncompressedData, ps[i]) {
+			return // single-segment behaviour is runSegment's business (same bytes, same key there)
+		}
+		for j := 0; j < i; j++ {
+			if !bytes.Equal(got[j].Payload.UncompressedData, ps[j]) || got[j].Header.IsSelfContained != flags[j] {
+				c.Violation("segment/lz4/sequence/content-changed-by-later-decode", detail{Algo: "segment/lz4", FrameName: names[j] + " (order " + order + ")",
+					What:     fmt.Sprintf("segment %q decoded to the right content, which changed after the same codec decoded %q", names[j], names[i]),
+					InputLen: len(ps[j]), Input0: head(ps[j], 32), Comp0: head(got[j].Payload.UncompressedData, 32)})
+				return
+			}
+		}
+	}
+	c.Count("segment_sequences_on_one_codec", 1)
+	c.Distinct("segment/lz4/sequence/" + order)
+}
+
 // ------------------------------------------------------------------------------------------------
 
 var fixedSizes = []int{0, 1, 2, 3, 4, 5, 11, 12, 13, 15, 16, 17, 64, 65, 255, 256, 257, 4096, 65535, 65536, 65537, 131071, 1 << 20, 4 << 20}
@@ -705,7 +821,7 @@ var fixedSizes = []int{0, 1, 2, 3, 4, 5, 11, 12, 13, 15, 16, 17, 64, 65, 255, 25
 func run(c *mon.Ctx) {
 	c.Rule = "byte-string case = (size, content class); bytes are a pure function of (seed, size, class). sizes {0,1,2,3,4,5,11,12,13,15,16,17,64,65,255,256,257,4096,65535,65536,65537,131071,1MiB,4MiB (thorough: 16MiB)} " +
 		"plus PRNG-chosen sizes (quick 96, thorough 2000) x classes {all-equal, period 2/3/7/255, text-like, PRNG, PRNG with long repeats, already-compressed (DEFLATE output), 12-byte records with period 65536}; " +
-		"each case runs lz4 raw, lz4 withLength, snappy withLength, compressing and decompressing through *bytes.Buffer, a plain io.Reader and (<=4096 bytes) a 3-bytes-per-Read reader; " +
+		"each case runs lz4 raw, lz4 withLength, snappy withLength, compressing and decompressing through *bytes.Buffer, a plain io.Reader, and (inputs <= 1 MiB) readers delivering 1/3/4096 bytes per Read, io.LimitReader around those with n = len and n = len+7, bufio.Reader(16) and a half-reader (a subset above 1 MiB and for compressing above 128 KiB); " +
 		"every distinct compressed form is also expanded by segref's independent decoder. Plus library frames (QUERY, RESULT Rows, AUTH_RESPONSE, SUPPORTED, ERROR; v3, v4) and v5 segments encoded with and without a compressor. " +
 		"A signature is (algorithm/format, size, class, input class in {empty, ratio<=8, ratio>8}) or (frame|segment name, algorithm)."
 	c.Assume("segref's LZ4 / Snappy block decoders are correct (written from the format descriptions, pinned by hand-assembled blocks in internal/segref/segref_test.go)")
@@ -813,4 +929,20 @@ func (ck checker) framesAndSegments() {
 	segs = append(segs, sp{"empty-payload", []byte{}, true})
 	mon.ParallelN(4, len(segs), func(i int) { ck.runSegment(segs[i].name, segs[i].p, segs[i].self) })
 	c.Set("segments", len(segs))
+
+	// the same segments as a sequence on ONE codec instance per side, in both orders: content decoded with a
+	// compressor must stay what it was after the codec has been used again
+	for _, order := range []string{"forward", "backward"} {
+		names := make([]string, len(segs))
+		ps := make([][]byte, len(segs))
+		flags := make([]bool, len(segs))
+		for i := range segs {
+			j := i
+			if order == "backward" {
+				j = len(segs) - 1 - i
+			}
+			names[i], ps[i], flags[i] = segs[j].name, segs[j].p, segs[j].self
+		}
+		ck.runSegmentSequence(order, names, ps, flags)
+	}
 }
